@@ -84,10 +84,20 @@ def run(chk):
     tabtxt = lambda d: ",".join("%s=%s" % kv for kv in d.items()) or "-"
     impl = common.chunked_parallel(pair.impl, ["zoo-read-prefixes %s %s" % (c.zoo.name, c.impl_file) for c in cases], workers=16, chunk=1)
     model = common.chunked_parallel(pair.model, ["read-prefixes %s %s %s" % (c.zoo.cols_text, c.impl_file, tabtxt(c.dtab)) for c in cases], workers=16, chunk=1)
+    # the same source handed over at another position (after sniffing the leading magic; at its end): the reader
+    # seeks by itself, so the verdicts must be the same (seeded change C11-r8: a "restore the position" defer that
+    # overwrote the error whenever the position was not 0)
+    moved = [c for i, c in enumerate(cases) if thorough or i % 2 == 0]
+    impl4 = common.chunked_parallel(pair.impl, ["zoo-read-prefixes %s %s start=4" % (c.zoo.name, c.impl_file) for c in moved], workers=16, chunk=1)
+    imple = common.chunked_parallel(pair.impl, ["zoo-read-prefixes %s %s start=end" % (c.zoo.name, c.impl_file) for c in moved], workers=16, chunk=1)
+    modelof = {id(c): b for c, b in zip(cases, model)}
     tie_breaks, prop_fail = [], []
     total, inner = 0, 0
     nontrivial = 0
-    for c, a, b in zip(cases, impl, model):
+    triples = [(c, a, b, "") for c, a, b in zip(cases, impl, model)]
+    triples += [(c, a, modelof[id(c)], " source handed over at offset 4") for c, a in zip(moved, impl4)]
+    triples += [(c, a, modelof[id(c)], " source handed over at its end") for c, a in zip(moved, imple)]
+    for c, a, b, how in triples:
         ca, cb = expand(a), expand(b)
         raw = bytes.fromhex(c.impl_file)
         total += len(ca)
@@ -96,11 +106,11 @@ def run(chk):
         norm = lambda x: "R" if x in "Ee" else x
         if [norm(x) for x in ca] != [norm(x) for x in cb]:
             d = next(i for i, (x, y) in enumerate(zip(ca, cb)) if norm(x) != norm(y)) if len(ca) == len(cb) else -1
-            tie_breaks.append({"case": c.key()[:300], "what": "accept/reject per prefix length", "first_diff_at_length": d, "impl": a[:200], "model": b[:200]})
+            tie_breaks.append({"case": c.key()[:300] + how, "what": "accept/reject per prefix length", "first_diff_at_length": d, "impl": a[:200], "model": b[:200]})
         for n, x in enumerate(ca):
             if x in "AP":
                 inner_here = n >= 4 and raw[n - 4:n] == b"PAR1"
-                prop_fail.append({"case": c.key()[:1500] + " prefix_length=%d" % n,
+                prop_fail.append({"case": c.key()[:1500] + " prefix_length=%d" % n + how,
                                   "key": {"tag": c.tag, "outcome": "accepted" if x == "A" else "panic", "prefix_ends_with_magic": inner_here},
                                   "clause": "a strict prefix (length %d of %d) is %s" % (n, len(raw), "accepted as a valid file" if x == "A" else "making the reader panic"),
                                   "got": x, "want": "rejected"})
@@ -110,7 +120,7 @@ def run(chk):
         "obligations": pr["obligations"], "discharged": pr["discharged"], "axioms": pr["axioms"],
         "checker_cmd": "cd lean && lake build %s" % MODULE, "trusted_base": TRUSTED_BASE, "forbidden_constructs": pr["forbidden_constructs"],
         "evaluations": total, "distinct_nontrivial": nontrivial, "exhaustive": True, "files": len(cases), "files_with_inner_magic": inner,
-        "rule": "EVERY strict prefix (every byte length 0..len-1) of valid files of 8 structs x 3 codecs, plus crafted files whose string column holds a complete footer+length (with and without the magic), opened and iterated by the generated reader; non-trivial = distinct (file, prefix length) rejected with an error",
+        "rule": "EVERY strict prefix (every byte length 0..len-1) of valid files of 8 structs x 3 codecs, plus crafted files whose string column holds a complete footer+length (with and without the magic), opened and iterated by the generated reader, the source being handed over at offset 0 and (every second file in quick, every file in thorough) at offset 4 and at its end; non-trivial = distinct (file, prefix length) rejected with an error",
         "samples": [cases[0].key()[:200], cr[0].key()[:200]],
         "tie": "reader model's accept/reject verdict per prefix length = generated reader's",
         "tie_disagreements": len(tie_breaks), "property_failures_on_impl": len(prop_fail),
